@@ -93,6 +93,96 @@ class Recorder:
         del FIRINGS[:]
 
 
+def outside_carrier(prog, inside=False):
+    """(max|min, mul) is a semiring on NON-NEGATIVE data only.  A term in which a max/min reduction (or binary max/min)
+    sits over a product with a negative constant or a negation is outside the carrier on which the rules that fuse /
+    distribute / push reductions are declared (funsor produces such terms itself: -x is rewritten to x * -1)."""
+    if not isinstance(prog, tuple) or not prog or not isinstance(prog[0], str):
+        return False
+    tag = prog[0]
+    if tag == "reduce" and prog[1] in ("max", "min"):
+        return outside_carrier(prog[2], True)
+    if tag == "binary" and prog[1] in ("max", "min"):
+        return outside_carrier(prog[2], True) or outside_carrier(prog[3], True)
+    if inside:
+        if tag == "num" and isinstance(prog[1], (int, float)) and prog[1] < 0:
+            return True
+        if tag == "unary" and prog[1] == "neg":
+            return True
+        if tag == "binary" and prog[1] == "sub":
+            return True
+    return any(outside_carrier(x, inside) for x in prog[1:] if isinstance(x, tuple)) or \
+        any(outside_carrier(y, inside) for x in prog[1:] if isinstance(x, tuple) for y in x if isinstance(y, tuple))
+
+
+def maxmul_leaves(prog, inside=False, acc=None):
+    """names of the data leaves that sit under a (max|min) reduction / binary together with a product"""
+    acc = set() if acc is None else acc
+    if not isinstance(prog, tuple) or not prog or not isinstance(prog[0], str):
+        return acc
+    tag = prog[0]
+    if tag in ("reduce", "binary") and prog[1] in ("max", "min"):
+        sub = prog[2:4] if tag == "binary" else prog[2:3]
+        if any(n[0] == "binary" and n[1] in ("mul", "truediv") for x in sub for n in _walk(x)):
+            inside = True
+    if inside and tag == "leaf":
+        acc.add(prog[1])
+    for x in prog[1:]:
+        if isinstance(x, tuple):
+            if x and isinstance(x[0], str):
+                maxmul_leaves(x, inside, acc)
+            else:
+                for y in x:
+                    if isinstance(y, tuple):
+                        maxmul_leaves(y, inside, acc)
+                        for z in y:
+                            if isinstance(z, tuple):
+                                maxmul_leaves(z, inside, acc)
+    return acc
+
+
+def _walk(e):
+    if isinstance(e, tuple):
+        if e and isinstance(e[0], str):
+            yield e
+        for x in e:
+            yield from _walk(x)
+
+
+def data_outside_carrier(progs, leaves, hyps=None, timeout_ms=2000):
+    """True when some tensor under a (max|min)-with-mul is not provably non-negative (concrete data: has a negative cell)"""
+    import numpy as np
+    import z3
+    from symx import engine
+    from symx.sv import SV
+    names = set()
+    for p in progs:
+        names |= maxmul_leaves(p)
+    goals = []
+    for n in names:
+        a = leaves.get(n)
+        if a is None:
+            continue
+        for c in np.asarray(a, dtype=object).ravel() if not isinstance(a, np.ndarray) or a.dtype == object else a.ravel():
+            if isinstance(c, SV):
+                if c.k in ("bool", "int"):
+                    continue
+                g = (c >= 0)
+                goals.append(g.l if isinstance(g, SV) else z3.BoolVal(bool(g)))
+            else:
+                try:
+                    if c < 0:
+                        return True
+                except TypeError:
+                    continue
+    goals = [g for g in goals if not z3.is_true(z3.simplify(g))]
+    if not goals:
+        return False
+    c = engine.ctx()
+    v, _, _ = engine.check_valid(list(hyps or ()) + list(c.axioms.values()) + [d for d, _ in c.defined], z3.And(*goals), timeout_ms)
+    return v != "unsat"
+
+
 def decide_firing(f, hyps, real_env, timeout_ms=4000):
     """obligation of one firing: sem(result) == sem_app(cls, args) on the joint input space; inputs(result) subset.
     returns dict(status=ok|violation|skipped|inconclusive, ...)"""
@@ -117,6 +207,13 @@ def decide_firing(f, hyps, real_env, timeout_ms=4000):
         return dict(status="skipped", why="%s: %s" % (type(e).__name__, str(e)[:80]))
     if redex == res:
         return dict(status="ok", trivial=True)
+    if outside_carrier(redex) or outside_carrier(res):
+        return dict(status="skipped", why="outside the non-negative carrier of (max|min, mul)")
+    try:
+        if data_outside_carrier((redex, res), conv.leaves, hyps):
+            return dict(status="skipped", why="tensor data under (max|min, mul) not provably non-negative: outside the carrier")
+    except (Unsupported, TypeError, ValueError):
+        pass
     extra = [k for k in sin if k not in rin]
     if extra:
         return dict(status="violation", why="result depends on inputs %s that the redex does not have" % extra)
